@@ -188,7 +188,9 @@ def check_scopes(ast):
             if x[1] not in ev:
                 in_other = (ag is not None and x[1] in ag) or (sc is not None and x[1] in sc)
                 if x[1].startswith('__cse_') and x[1] in bound_anywhere:
-                    problems.append(('lifted-let-used-outside-its-scope', x[1], cse_let))
+                    # the renderer's own let exists somewhere in the text but does not enclose this use
+                    problems.append(('lifted-let-used-outside-its-scope' if cse_let is None
+                                     else 'lifted-let-value-refers-to-let-not-in-scope', x[1], cse_let))
                 elif cse_let is not None and (x[1] in bound_anywhere):
                     problems.append(('lifted-let-outside-binder' if not in_other else 'lifted-let-wrong-context',
                                      x[1], cse_let))
